@@ -191,4 +191,128 @@ def raceSet (rs : RacyScript) (D : Nat) : List (Res × Nat) :=
     | .returned r => some (resOf r, s.cancelCalls)
     | _ => none
 
+/-! ### a call that issues several requests (stream `c20w`, lines `w-seqnos-multi <n> <b0>,<b1>,…`)
+
+`GetVBucketSeqNos` against a cluster of `n` KV nodes: one GET_ALL_VB_SEQNOS request per node, every
+node with a scripted behaviour.  Reading of the property sentence for the whole call:
+
+ * "returns by its deadline"                        → `by-deadline`: not `hang`, not `late` (> 60 s + 3 s)
+ * "a completion after the deadline neither blocks" → `no-block`: no goroutine of the call is left 2 s after it returned
+ * "success is never reported for an operation the
+    server did not confirm"                         → `success-unconfirmed`: success only if EVERY node answered with success
+ * "exactly the server's outcome"                   → `outcome-exact`: success carries the union of all nodes' vBuckets -/
+
+/-- what one node does with its request -/
+inductive NodeBeh
+  | prompt     -- answers at once, success
+  | err        -- answers at once with an error status
+  | silent     -- never answers
+  | late       -- answers after the deadline
+  deriving DecidableEq, Repr
+
+/-- result class of the harness, as far as the monitor cares -/
+inductive MClass
+  | ok | okBad | serverError | timeout | otherError | hang | panic
+  deriving DecidableEq, Repr
+
+inductive MTime | before | byDeadline | late
+  deriving DecidableEq, Repr
+
+structure MultiObs where
+  behs : List NodeBeh
+  cls : MClass
+  time : MTime
+  blocked : Nat
+  deriving DecidableEq, Repr
+
+def MClass.isOk : MClass → Bool
+  | .ok | .okBad => true
+  | _ => false
+
+/-- first violated clause, if any -/
+def checkMulti (o : MultiObs) : Option String :=
+  if o.cls == .hang || o.time == .late then some "by-deadline"
+  else if o.cls == .panic then some "no-panic-or-hang"
+  else if o.blocked != 0 then some "no-block"
+  else if o.cls.isOk && !(o.behs.all (· == .prompt)) then some "success-unconfirmed"
+  else if o.cls == .okBad then some "outcome-exact"
+  else none
+
+def holdsMulti (o : MultiObs) : Bool := (checkMulti o).isNone
+
+/-! the model's prediction: the per-request LTS (`MState`) on the canonical schedule of the behaviours.
+    One tick = 20 s; every request has its own ctx with deadline `multiD`. -/
+
+def multiD : Nat := 3
+
+/-- the GetVBucketSeqNos row of the wrapper table (after the F7 repair) -/
+def multiCfg : Cfg := { shape := { resultChan := true, propagatesErr := true }, deadline := some multiD }
+
+/-- gocbcore's cancellation error, handed to the callback that `op.Cancel()` runs -/
+def codeCancelled : Nat := 6
+
+def withIdx {α : Type} : Nat → List α → List (Nat × α)
+  | _, [] => []
+  | i, x :: xs => (i, x) :: withIdx (i + 1) xs
+
+/-- node `i` answers: callback (stores, `Resolve()`, `ch <- err`), then its worker runs to its return -/
+def answerActs (i : Nat) (o : Outcome) : List MAction :=
+  [.req i (.srvResolve o), .req i .srvPush, .req i (.waiterStep false), .req i (.waiterStep false),
+   .req i (.waiterStep false)]
+
+/-- worker `i` at its deadline: `ctx.Done()`, `op.Cancel()` – gocbcore runs the callback with the
+    cancellation error on the spot –, `return ctx.Err()` -/
+def timeoutActs (i : Nat) : List MAction :=
+  [.req i (.waiterStep true), .req i (.srvResolve (.err codeCancelled)), .req i .srvPush,
+   .req i (.waiterStep false), .req i (.waiterStep false)]
+
+/-- until just before the deadline: all workers enter `Wait`, the prompt / error answers arrive -/
+def multiPre (behs : List NodeBeh) : List MAction :=
+  (withIdx 0 behs).map (fun p => MAction.req p.1 (.waiterStep false)) ++
+  (withIdx 0 behs).flatMap fun p => match p.2 with
+    | .prompt => answerActs p.1 (.ok 1)
+    | .err => answerActs p.1 (.err 1)
+    | _ => []
+
+/-- from the deadline on; the answer of a `late` node finds its operation cancelled and is dropped by
+    gocbcore (callback at most once), so all it adds is time -/
+def multiPost (behs : List NodeBeh) : List MAction :=
+  List.replicate multiD .tick ++
+  ((withIdx 0 behs).flatMap fun p => match p.2 with
+    | .silent | .late => timeoutActs p.1
+    | _ => []) ++
+  (if behs.any (· == .late) then [.tick] else [])
+
+def isCallbackAct : Action → Bool
+  | .srvResolve _ | .srvPush => true
+  | _ => false
+
+/-- `mrun` that also counts the callback steps of the schedule that were NOT enabled (a send that blocks) -/
+def mrunB (s : MState) (acts : List MAction) : MState × Nat :=
+  acts.foldl (fun (p : MState × Nat) a =>
+    let blocked := match a with
+      | .req i x => isCallbackAct x && (match p.1.ops[i]? with
+          | some o => (step o x).isNone
+          | none => false)
+      | .tick => false
+    (mstep p.1 a, if blocked then p.2 + 1 else p.2)) (s, 0)
+
+def classOfCall : Option CallRes → MClass
+  | none => .hang
+  | some (.ok _) => .ok
+  | some (.err (.srvErr _)) => .serverError
+  | some (.err (.ctxErr .deadlineExceeded)) => .timeout
+  | some (.err (.okEmpty)) | some (.err (.ok _)) => .okBad
+  | some (.err _) => .otherError
+
+def multiModelObs (behs : List NodeBeh) : MultiObs :=
+  let p1 := mrunB (minit (behs.map fun _ => multiCfg)) (multiPre behs)
+  match callResult p1.1 with
+  | some r => { behs, cls := classOfCall (some r), time := .before, blocked := p1.2 + blockedCallbacks p1.1 }
+  | none =>
+    let p2 := mrunB p1.1 (multiPost behs)
+    { behs, cls := classOfCall (callResult p2.1),
+      time := if (callResult p2.1).isSome then .byDeadline else .late,
+      blocked := p1.2 + p2.2 + blockedCallbacks p2.1 }
+
 end GoDcp.Spec.C20
